@@ -7,6 +7,7 @@ package main
 // declarations only — never by whole-program reachability.
 
 import (
+	"go/constant"
 	"fmt"
 	"go/token"
 	"go/types"
@@ -27,6 +28,15 @@ const (
 	EffGlobalW  = "global.write"
 	EffSetAcct  = "auth.setaccount"
 )
+
+// ArgOrderDecl: a wiring fact about a call whose arguments are string constants (module names in the module manager's
+// ordering calls): the listed names appear among the arguments in this relative order.
+type ArgOrderDecl struct {
+	Prop   string
+	Func   string
+	Method string
+	Names  []string
+}
 
 type EffectDecl struct {
 	Key     string // contract key, or "package:<path>"
@@ -692,4 +702,111 @@ func cmdEntryPoints(p *Program) {
 			fmt.Println(l)
 		}
 	}
+}
+
+
+// runArgOrderCheck: the `argorder` declarations of a property. In the named function, the call of the named method is found
+// (SSA), its string-constant arguments are read in order (a variadic call: stores into the argument array), and every
+// adjacent pair of declared names must appear in that relative order. One obligation per pair; a missing call or a missing
+// name fails its obligations.
+func runArgOrderCheck(p *Program, id string) *FuncReport {
+	rep := &FuncReport{Key: "wiring:" + id}
+	for _, d := range p.Specs.ArgOrders {
+		if d.Prop != id {
+			continue
+		}
+		fn := p.Funcs[d.Func]
+		var names []string
+		found := false
+		if fn != nil {
+			for _, b := range fn.Blocks {
+				for _, in := range b.Instrs {
+					call, ok := in.(ssa.CallInstruction)
+					if !ok {
+						continue
+					}
+					c := call.Common()
+					callee := ""
+					if c.IsInvoke() {
+						callee = c.Method.Name()
+					} else if f := c.StaticCallee(); f != nil {
+						callee = f.Name()
+					}
+					if callee != d.Method || found {
+						continue
+					}
+					found = true
+					for _, a := range c.Args {
+						names = append(names, stringConstsOf(a)...)
+					}
+				}
+			}
+		}
+		pos := map[string]int{}
+		for i, n := range names {
+			if _, dup := pos[n]; !dup {
+				pos[n] = i
+			}
+		}
+		for i := 0; i+1 < len(d.Names); i++ {
+			a, b := d.Names[i], d.Names[i+1]
+			o := &Obligation{Name: fmt.Sprintf("%s/wiring@%s:%s<%s", d.Func, d.Method, a, b), Kind: "effect", Func: d.Func, Goal: TrueT, Solver: "wiring-checker",
+				Status: "discharged", Note: fmt.Sprintf("in %s, the call of %s lists %q before %q", d.Func, d.Method, a, b)}
+			pa, oka := pos[a]
+			pb, okb := pos[b]
+			switch {
+			case fn == nil || !found:
+				o.Status, o.Goal, o.Output = "failed", FalseT, "the call of "+d.Method+" was not found in "+d.Func
+			case !oka || !okb:
+				o.Status, o.Goal, o.Output = "failed", FalseT, fmt.Sprintf("%q or %q is not among the constant arguments %v", a, b, names)
+			case pa >= pb:
+				o.Status, o.Goal, o.Output = "failed", FalseT, fmt.Sprintf("%q (position %d) does not come before %q (position %d)", a, pa, b, pb)
+			}
+			rep.Obligations = append(rep.Obligations, o)
+		}
+	}
+	return rep
+}
+
+// stringConstsOf: the string constants stored, in index order, into the array behind a variadic argument slice.
+func stringConstsOf(v ssa.Value) []string {
+	sl, ok := v.(*ssa.Slice)
+	if !ok {
+		if c, ok := v.(*ssa.Const); ok && c.Value != nil && c.Value.Kind() == constant.String {
+			return []string{constant.StringVal(c.Value)}
+		}
+		return nil
+	}
+	al, ok := sl.X.(*ssa.Alloc)
+	if !ok || al.Referrers() == nil {
+		return nil
+	}
+	type ent struct {
+		idx int64
+		s   string
+	}
+	var es []ent
+	for _, r := range *al.Referrers() {
+		ia, ok := r.(*ssa.IndexAddr)
+		if !ok || ia.Referrers() == nil {
+			continue
+		}
+		ic, ok := ia.Index.(*ssa.Const)
+		if !ok {
+			continue
+		}
+		for _, rr := range *ia.Referrers() {
+			if st, ok := rr.(*ssa.Store); ok {
+				if c, ok := st.Val.(*ssa.Const); ok && c.Value != nil && c.Value.Kind() == constant.String {
+					es = append(es, ent{ic.Int64(), constant.StringVal(c.Value)})
+				}
+			}
+		}
+	}
+	sort.Slice(es, func(i, j int) bool { return es[i].idx < es[j].idx })
+	var out []string
+	for _, e := range es {
+		out = append(out, e.s)
+	}
+	return out
 }
